@@ -52,6 +52,17 @@ def history_alphabet(pair, cross: bool) -> list:
     return evs
 
 
+def heartbeat_alphabet(pair) -> list:
+    """Histories WITH heartbeat responses of known nodes for the pairs that straddle 2.2. The stated exception
+    (sleeping mark, release of parked commands) makes default sends to such a node differ legitimately, so
+    this alphabet has no buffered sends; everything else must still agree, with the sleeping flag masked."""
+    evs = [ev for ev in history_alphabet(pair, False) if not (ev[0] == "send" and ev[2] is None)]
+    evs.append(["line", [1, 255, 3, 0, 22, "7"]])
+    evs.append(["line", [2, 255, 3, 0, 22, "8"]])
+    evs.append(["send", [1, 3, 1, 0, 2, "s"], False])
+    return evs
+
+
 def single_alphabet(pair, cross: bool) -> list:
     old = pair[0]
     evs = []
@@ -108,6 +119,9 @@ class Monitor:
         self.nontrivial = False
         self.last_desc = None
         self._alpha = single_alphabet(self.pair, self.cross) if cfg["mode"] == "single" else history_alphabet(self.pair, self.cross)
+        self.mask_sleeping = cfg["mode"] == "hb"
+        if cfg["mode"] == "hb":
+            self._alpha = heartbeat_alphabet(self.pair)
         for ev in cfg.get("prefix", []):
             v = self.apply(ev)
             assert not v, v
@@ -140,8 +154,14 @@ class Monitor:
                 if node is not None:
                     node.reboot = True
                 outs.append(None)
-        if ev[0] == "reboot":
-            self.last_desc = {"reboot": ev[1]}
+            elif ev[0] == "sleepflag":
+                # as restored from a persistence file written by an earlier session
+                node = s.gateway.nodes.get(ev[1])
+                if node is not None:
+                    node.sleeping = True
+                outs.append(None)
+        if ev[0] in ("reboot", "sleepflag"):
+            self.last_desc = {ev[0]: ev[1]}
             return viols
         oa, ob = outs
         self.last_desc = {self.pair[0]: oa.describe(), self.pair[1]: ob.describe()}
@@ -161,7 +181,7 @@ class Monitor:
             wa = sorted(w for w in oa.writes if w not in parked or parked.remove(w))
         if wa != wb:
             bad("writes-differ", f"{self.pair[0]} wrote {oa.writes}, {self.pair[1]} wrote {ob.writes}")
-        if hb_exception:
+        if hb_exception or self.mask_sleeping:
             ra, rb = registry_view(self.a.gateway.nodes), registry_view(self.b.gateway.nodes)
             for r in (ra, rb):
                 for nd in r.values():
@@ -238,6 +258,16 @@ def run(ctx: core.Ctx) -> core.Report:
     cfgs_h.append({"pair": ["2.0", "2.1"], "cross": False, "mode": "hist",
                    "prefix": [["line", [1, 255, 0, 0, 17, "2.0"]], ["line", [1, 3, 0, 0, 6, "d"]], ["line", [1, 255, 3, 0, 22, "0"]], ["send", [1, 3, 1, 0, 2, "s"], None]]})
     res = bfs.search(ctx, MOD, cfgs_h, max_depth=depth)
+    # heartbeat responses of known nodes inside histories, for the pairs the stated exception applies to
+    n1, c3 = ["line", [1, 255, 0, 0, 17, "2.0"]], ["line", [1, 3, 0, 0, 6, "d"]]
+    cfgs_hb = [{"pair": p, "cross": False, "mode": "hb", "prefix": [n1, c3]} for p in SAME_MAJOR if straddles_22(p)]
+    # a node restored from a persistence file as sleeping (the only way a 1.x gateway has one), then traffic
+    cfgs_sl = [{"pair": p, "cross": c, "mode": "hist", "prefix": [n1, c3, ["sleepflag", 1]]} for p, c in [(p, False) for p in SAME_MAJOR if not straddles_22(p)] + [(p, True) for p in CROSS_MAJOR]]
+    res2 = bfs.search(ctx, MOD, cfgs_hb + cfgs_sl, max_depth=3 if ctx.quick else 5)
+    for k in ("states", "transitions", "nontrivial_transitions"):
+        res[k] += res2[k]
+    for k in ("per_cfg", "samples", "violations"):
+        res[k] += res2[k]
     cfgs_s = []
     for p in SAME_MAJOR:
         for pre in prefixes(p, False):
@@ -261,7 +291,7 @@ def run(ctx: core.Ctx) -> core.Report:
         "type_product_cases": tcount,
         "exhaustive": False,
         "distinct_nontrivial_transitions": res["nontrivial_transitions"] + sres["nontrivial_transitions"],
-        "rule": "product of two real gateways (old, new) fed the same events; (a) every internal/stream type of the old table x payloads in base states (depth 1; the heartbeat response across 2.1->2.2 is compared with the sleeping flag and the release of parked commands masked), (b) all histories to the stated depth, (c) every child type x value type of the older table (present, set, req, send); non-trivial = the step wrote something or raised",
+        "rule": "product of two real gateways (old, new) fed the same events; (a) every internal/stream type of the old table x payloads in base states (depth 1; the heartbeat response across 2.1->2.2 is compared with the sleeping flag and the release of parked commands masked), (b) all histories to the stated depth, incl. histories with heartbeat responses across the 2.2 boundary (sleeping flag masked, no buffered sends) and histories starting from a node restored as sleeping, (c) every child type x value type of the older table (present, set, req, send); non-trivial = the step wrote something or raised",
         "bounds": {"depth": depth, "pairs": SAME_MAJOR + CROSS_MAJOR, "single_step_cfgs": len(cfgs_s), "per_cfg": res["per_cfg"]},
         "samples": ctx.pick(res["samples"], 3),
     }
@@ -270,7 +300,7 @@ def run(ctx: core.Ctx) -> core.Report:
         coverage=cov,
         violations=res["violations"] + sres["violations"] + tviols,
         assumptions=[
-            "heartbeat response across 2.1 -> 2.2: excluded from histories; in single steps compared modulo the stated exception (sleeping flag, release of parked commands)",
+            "heartbeat response across 2.0/2.1 -> 2.2: in histories only in a dedicated alphabet without buffered sends, the sleeping flag masked; in single steps compared modulo the stated exception (sleeping flag, release of parked commands)",
             "across major lines histories are restricted to known nodes/children and no gateway-ready",
             "version reports are excluded (they would change the pair under test; C05)",
             "writes compared as multisets per step",
